@@ -182,7 +182,9 @@ def rule_distinct_count(ctx):
 
         interp = Interp(model, ch, externals={"builtins.eval": eval_hook})
         # the bookkeeping starts as the check's own reset() leaves it, whatever private structure that is
-        check = Obj(model.cls(DISTINCT), {"_expression": "count >= 2", "_location": None})
+        from ..tablekit import init_literal_attrs
+
+        check = Obj(model.cls(DISTINCT), dict(init_literal_attrs(model, model.cls(DISTINCT)), _expression="count >= 2", _location=None))
         try:
             interp.call_function(model.lookup_method(model.cls(DISTINCT), "reset"), [check], {}, None)
             result = interp.call_function(model.func(DISTINCT + "._eval"), [check], {}, None)
@@ -355,10 +357,14 @@ def rule_reset_restores_fresh_state(ctx):
         rows_before = ch.choose("rows before the reset", [1, 2])
         interp = Interp(model, ch, externals={"composed_text_eq": _composed_text_eq(ch)})
         world = World(model, interp, ch)
-        check = Obj(model.cls(class_qualname), dict(setups[class_qualname], _description="check"), label="check")
+        from ..tablekit import init_literal_attrs
+
+        initial = dict(init_literal_attrs(model, model.cls(class_qualname)))
+        initial.update(setups[class_qualname], _description="check")
+        check = Obj(model.cls(class_qualname), dict(initial), label="check")
         interp.call_function(model.func(class_qualname + ".reset"), [check], {}, None)
-        # the bookkeeping: whatever reset() sets up, under whatever private names
-        state_names = set(check.attrs) - set(setups[class_qualname]) - {"_description"}
+        # the bookkeeping: whatever reset() sets up or replaces, under whatever private names
+        state_names = {name for name, value in check.attrs.items() if name not in initial or value is not initial[name]} - {"_description"}
         if not state_names:
             return ("%s after %d row(s)" % (class_qualname.rsplit(".", 1)[-1], rows_before), "reset() sets up no state", "reset() sets up the bookkeeping")
         fresh = snapshot(check, state_names)
